@@ -229,8 +229,13 @@ package rapidcore
 //@ event ServerCleared = call rapidcore.(*Server).Clear
 //@ event RapidHandleReset = call interop.(RapidContext).HandleReset
 //@ event RapidClear = call interop.(RapidContext).Clear
+// C07 ("no client behaviour can wedge the emulator"): SendResponse holds the server mutex while it reads the runtime's body; the
+// reset that ends a stalled invocation therefore reaches the sandbox reset (which kills the runtime and so ends that read)
+// without taking that mutex itself
+//@ event ServerMutexLocked = call sync.(*Mutex).Lock
 //@ func (*Server).Reset
 //@   requires s != nil
+//@   ensures [C07: the-reset-does-not-wait-for-the-server-mutex] delta(ServerMutexLocked) == 0
 //@   ensures [returns-after-the-done-of-its-worker] delta(ResetWorkerStarted) == 1 && delta(ResetDoneSeen) == 1 && first(ResetWorkerStarted) < first(ResetDoneSeen)
 // C10: the worker clears the server (Clear gives the reservation back) before it reports done; whatever is reserved when the
 // done is seen was reserved afterwards, by the next caller, and is not the reset's to give back
